@@ -304,7 +304,7 @@ func runC04(c *core.Ctx) {
 	for _, cfg := range c04Configs(c.Quick()) {
 		for _, v := range []string{"C04/recovery", "C04/logon-gap"} {
 			sp := variantDefs[v](cfg)
-			sp.depth, sp.relative = dRec, true
+			sp.depth, sp.relative, sp.conform = dRec, true, 8
 			runSearch(c, sp)
 		}
 		if cfg.Chunk == 0 || cfg.Chunk == 2 {
@@ -316,6 +316,7 @@ func runC04(c *core.Ctx) {
 			break
 		}
 	}
+	runConformance(c)
 	c.Set("depth_recovery", dRec)
 	c.Set("depth_general", dGen)
 }
